@@ -96,6 +96,7 @@ static void book(Ctx &c, const Case &cs) {
         if (g_fullcov && cs.m <= 34 && cs.n <= 34) c.count(fmt("P:%s:%d:%d", cs.op.c_str(), cs.m, cs.n));
     } else if (g_fullcov && cs.m <= 34) c.count(fmt("P:%s:%d", cs.op.c_str(), cs.m));
     c.count(fmt("m:%s:%d", cs.op.c_str(), cs.m <= 34 ? cs.m : cs.m <= 64 ? 64 : 192));
+    if (cs.k >= 0) c.count(fmt("k:%s:%d", cs.op.c_str(), cs.k <= 34 ? cs.k : cs.k <= 64 ? 64 : 192));
     c.count(std::string("cls:") + CLSN[cs.ca]);
     if (cs.n >= 0) c.count(std::string("cls:") + CLSN[cs.cb]);
     c.count(std::string("alias:") + ALN[cs.alias]);
@@ -242,6 +243,15 @@ static int pick_nd(Tape &t, int maxnd) {
     else v = (int) t.below((uint64_t) maxnd + 1);
     return v > maxnd ? maxnd : v;
 }
+// two digit counts from the same regime: 12/16 a uniform pair from [0,34]^2, 2/16 both 35..70, 2/16 both up to their maximum
+static void pick_pair(Tape &t, int maxm, int maxn, int *m, int *n) {
+    unsigned r = (unsigned) t.below(16);
+    if (r < 12) { *m = (int) t.below(35); *n = (int) t.below(35); }
+    else if (r < 14) { *m = 35 + (int) t.below(36); *n = 35 + (int) t.below(36); }
+    else { *m = (int) t.below((uint64_t) maxm + 1); *n = (int) t.below((uint64_t) maxn + 1); }
+    if (*m > maxm) *m = maxm;
+    if (*n > maxn) *n = maxn;
+}
 static pstm_digit pick_digit(Tape &t, bool *edge) {
     unsigned r = (unsigned) t.below(8);
     if (edge) *edge = (r >= 1 && r <= 6);
@@ -329,14 +339,17 @@ static void poke(Tape &t, Ctx &c, pstm_int *r, const Case &cs) {
     mk(W, wm, 0, 1);
     z_from_mag(w.v, wm, 0);
     mpz_add(want.v, before.v, w.v);
+    bool stale = false; // digits above 'used' that the producing operation left behind (they must be zero, see pstm_copy/pstm_clamp)
+    for (unsigned i = r->used; i < r->alloc; i++) stale = stale || r->dp[i] != 0;
+    std::string sig = stale ? "stale-digits:" + cs.op : cs.op + "-followup-add";
     int32_t rc = pstm_add(r, &W.v, r);
     c.count("followup-add");
-    VF_CHECK(rc == PSTM_OKAY, cs.op + "-followup-add", "%s: follow-up pstm_add returned %d", descr(cs).c_str(), (int) rc);
+    VF_CHECK(rc == PSTM_OKAY, sig, "%s: follow-up pstm_add returned %d", descr(cs).c_str(), (int) rc);
     inv(c, r, cs, "follow-up sum");
     Z got;
     z_from_p(got.v, r);
     if (mpz_cmp(got.v, want.v) != 0)
-        VF_FAIL(cs.op + "-followup-add", "%s: result + w (aliased) got=%s want=%s", descr(cs).c_str(), zhex(got.v).c_str(), zhex(want.v).c_str());
+        VF_FAIL(sig, "%s: %sresult + w (aliased, w longer) got=%s want=%s", descr(cs).c_str(), stale ? "the result variable kept non-zero digits above 'used'; " : "", zhex(got.v).c_str(), zhex(want.v).c_str());
 }
 
 // ------------------------------------------------------------------ real moduli
@@ -425,7 +438,8 @@ static Mag gen_modulus(Tape &t, int nd, bool need_odd, uint64_t minval, Case &cs
 static void op_addsub(Tape &t, Ctx &c, int kind) {
     Case cs;
     cs.op = kind == 0 ? "add" : kind == 1 ? "sub" : "sub_s";
-    int m = pick_nd(t, LIM - 1), n = pick_nd(t, LIM - 1);
+    int m, n;
+    pick_pair(t, LIM - 1, LIM - 1, &m, &n);
     cs.ca = pick_cls(t, false);
     Mag A = gen_mag(t, m, cs.ca, NULL);
     cs.cb = pick_cls(t, true);
@@ -510,7 +524,9 @@ static void op_digit(Tape &t, Ctx &c, int kind) {
 static void op_mul(Tape &t, Ctx &c, bool sqr) {
     Case cs;
     cs.op = sqr ? "sqr_comba" : "mul_comba";
-    int m = pick_nd(t, 95), n = sqr ? -1 : pick_nd(t, 95);
+    int m, n;
+    pick_pair(t, 95, 95, &m, &n);
+    if (sqr) { m = pick_nd(t, 95); n = -1; }
     cs.ca = pick_cls(t, false);
     Mag A = gen_mag(t, m, cs.ca, NULL), B;
     if (!sqr) {
@@ -615,7 +631,10 @@ static void op_div_2d(Tape &t, Ctx &c) {
     // No in-tree caller asks for the remainder (d is always NULL).  The remainder path (pstm_mod_2d) evaluates
     // ~0 >> (DIGIT_BIT - b) which is an undefined shift for b > DIGIT_BIT (see findings/mod_2d-shift-ub.md); it is
     // therefore only requested for b < DIGIT_BIT, i.e. inside the range where the expression is defined.
-    if (bits >= 64 && (am == 2 || am == 4 || am == 5)) am = am == 2 ? 0 : 3;
+    // With c == a the remainder is computed from the already shifted value (same finding).  The remainder is thus only
+    // requested with a separate quotient variable and b < DIGIT_BIT.
+    if (am == 2) am = 0;
+    if (bits >= 64 && (am == 4 || am == 5)) am = 3;
     cs.alias = am <= 2 ? AL_CA : am == 5 ? AL_OTHER : AL_NONE;
     cs.extra = fmt("bits=%d mode=%u", bits, am);
     P pa, pc, pd;
@@ -652,7 +671,9 @@ static void op_div_2d(Tape &t, Ctx &c) {
 static void op_div(Tape &t, Ctx &c) {
     Case cs;
     cs.op = "div";
-    int m = pick_nd(t, LIM), n = imax(1, pick_nd(t, LIM));
+    int m, n;
+    pick_pair(t, LIM, LIM, &m, &n);
+    n = imax(1, n);
     cs.ca = pick_cls(t, false);
     Mag A = gen_mag(t, m, cs.ca, NULL);
     cs.cb = pick_cls(t, true);
@@ -706,7 +727,9 @@ static void op_div(Tape &t, Ctx &c) {
 static void op_mod(Tape &t, Ctx &c) {
     Case cs;
     cs.op = "mod";
-    int m = pick_nd(t, LIM), n = imax(1, pick_nd(t, 70));
+    int m, n;
+    pick_pair(t, LIM, 70, &m, &n);
+    n = imax(1, n);
     cs.ca = pick_cls(t, false);
     Mag B = gen_modulus(t, n, false, 1, cs);
     n = (int) B.size();
@@ -742,7 +765,8 @@ static void op_mulmod(Tape &t, Ctx &c) {
     Mag M = gen_modulus(t, k, false, 1, cs);
     k = (int) M.size();
     // operands: usually already reduced (<= k digits), sometimes longer
-    int m = t.below(4) ? pick_nd(t, k) : pick_nd(t, 90), n = t.below(4) ? pick_nd(t, k) : pick_nd(t, 90);
+    int m, n;
+    if (t.coin()) { m = pick_nd(t, k); n = pick_nd(t, k); } else pick_pair(t, 90, 90, &m, &n);
     cs.ca = pick_cls(t, true);
     if (cs.ca >= EQ) m = k;
     Mag A = gen_mag(t, m, cs.ca, &M);
@@ -822,12 +846,15 @@ static void op_invmod(Tape &t, Ctx &c) {
         return;
     }
     inv(c, o, cs, "result");
-    if (m == 0) { c.count("invmod:zero-operand-ok"); return; } // 1/0: outside every caller's domain
+    { Z red; mpz_mod(red.v, za.v, zm.v); // 1/0 (also a multiple of b): outside every caller's domain (callers check for zero)
+      if (mpz_sgn(red.v) == 0) { c.count("invmod:zero-operand-ok"); return; } }
     VF_CHECK(invertible, "invmod-accepted-noninvertible", "%s: returned success although gcd(a,b)=%s", descr(cs).c_str(), zhex(g.v).c_str());
     Z got, prod;
     z_from_p(got.v, o);
     if (indomain) {
         mpz_invert(want.v, za.v, zm.v);
+        if (mpz_cmp(got.v, want.v) != 0 && mpz_cmp(got.v, zm.v) >= 0 && mpz_congruent_p(got.v, want.v, zm.v))
+            VF_FAIL("invmod-unreduced", "%s: result is congruent to 1/a but not reduced: got=%s = 1/a + %s*b", descr(cs).c_str(), zhex(got.v).c_str(), (mpz_sub(prod.v, got.v, want.v), mpz_divexact(prod.v, prod.v, zm.v), zhex(prod.v).c_str()));
         if (mpz_cmp(got.v, want.v) != 0) VF_FAIL("invmod-mismatch", "%s: got=%s want=%s", descr(cs).c_str(), zhex(got.v).c_str(), zhex(want.v).c_str());
     } else { // only the congruence a*c == 1 (mod b) is demanded
         mpz_mul(prod.v, got.v, za.v); mpz_sub_ui(prod.v, prod.v, 1); mpz_mod(prod.v, prod.v, zm.v);
@@ -954,6 +981,7 @@ static void op_exptmod(Tape &t, Ctx &c) {
             c.count("algebra:exptmod-split");
         }
     }
+    poke(t, c, o, cs);
 }
 
 // ------------------------------------------------------------------ lshd / rshd / 2expt
@@ -1025,8 +1053,9 @@ static void op_cmp(Tape &t, Ctx &c, int kind) {
         return;
     }
     int n = pick_nd(t, MAXD);
+    if (m <= 34 && t.below(8) != 0) n = (int) t.below(35); // keep small pairs together
     cs.cb = pick_cls(t, true);
-    if (t.below(3) == 0) cs.cb = EQ + (int) t.below(3);
+    if (t.below(4) == 0) cs.cb = EQ + (int) t.below(3);
     if (cs.cb >= EQ && m > 0) n = m;
     Mag B = gen_mag(t, n, cs.cb, &A);
     cs.n = n; cs.sb = n > 0 && (t.below(3) == 0 ? !cs.sa : cs.sa);
@@ -1066,7 +1095,7 @@ static void op_mont(Tape &t, Ctx &c) {
     Z zm, zr, rinv, want;
     z_from_mag(zm.v, M, 0);
     // operand(s): x, y < m  (classes relative to m too: m-1 etc. via DBOT/DTOP)
-    int variant = (int) t.below(8); // 0-3: x*y  4-5: x^2  6: arbitrary a < m*R  7: a = (m-1)^2 / extremes
+    int variant = (int) t.below(10); // 0-3: x*y  4-5: x^2  6: arbitrary a < m*R  7: a = (m-1)^2  8,9: a = j*m, j < R (reduces to exactly 0; the value before the final subtraction is m)
     cs.ca = pick_cls(t, true);
     int m1 = cs.ca >= EQ ? k : pick_nd(t, k);
     Mag X = gen_mag(t, m1, cs.ca, &M);
@@ -1114,9 +1143,10 @@ static void op_mont(Tape &t, Ctx &c) {
         mpz_mul(zt.v, zx.v, zx.v);
     } else {
         int cls = pick_cls(t, false);
-        Mag A = gen_mag(t, (int) t.below((uint64_t) 2 * k + 1), cls, NULL);
+        Mag A = gen_mag(t, (int) t.below((uint64_t) (variant == 6 ? 2 * k : k) + 1), cls, NULL);
         Z lim; mpz_mul_2exp(lim.v, zm.v, 64 * (unsigned long) k);
         z_from_mag(zt.v, A, 0);
+        if (variant >= 8) mpz_mul(zt.v, zt.v, zm.v);
         if (mpz_cmp(zt.v, lim.v) >= 0) mpz_mod(zt.v, zt.v, lim.v);
         A = mag_from_z(zt.v);
         VF_CHECK(pstm_grow(&T.v, (psSize_t) imax((int) A.size(), 1)) == PSTM_OKAY, "harness-init", "grow T");
@@ -1305,7 +1335,7 @@ static void op_radix(Tape &t, Ctx &c) {
     cs.extra = fmt("radix=%d len=%zu tail=%u", radix, len, tail <= 2 ? tail : 0);
     P a;
     unsigned im = (unsigned) t.below(3);
-    if (im == 0) { VF_CHECK(pstm_init_for_read_unsigned_bin(NULL, &a.v, (psSize_t) (len / 2 + 1)) == PSTM_OKAY, "harness-init", "init"); a.live = true; }
+    if (im == 0) { VF_CHECK(pstm_init_for_read_unsigned_bin(NULL, &a.v, (psSize_t) (m * 8 + 8)) == PSTM_OKAY, "harness-init", "init"); a.live = true; }
     else if (im == 1) { VF_CHECK(pstm_init_size(NULL, &a.v, 1) == PSTM_OKAY, "harness-init", "init"); a.live = true; }
     else mk_out(a, t, true);
     book(c, cs);
@@ -1416,14 +1446,40 @@ static void f_cmp(Tape &t, Ctx &c) { op_cmp(t, c, 0); }
 static void f_cmp_mag(Tape &t, Ctx &c) { op_cmp(t, c, 1); }
 static void f_cmp_d(Tape &t, Ctx &c) { op_cmp(t, c, 2); }
 static const OpEntry OPS[] = {
-    { "add", 14, f_add }, { "sub", 14, f_sub }, { "sub_s", 10, f_sub_s }, { "add_d", 6, f_add_d }, { "sub_d", 6, f_sub_d },
-    { "mul_comba", 26, f_mul }, { "sqr_comba", 16, f_sqr }, { "mul_d", 8, f_mul_d }, { "mul_2", 6, f_mul_2 }, { "div_2", 6, f_div_2 },
-    { "div_2d", 10, op_div_2d }, { "div", 12, op_div }, { "mod", 12, op_mod }, { "mulmod", 14, op_mulmod }, { "invmod", 10, op_invmod },
-    { "exptmod", 2, op_exptmod }, { "lshd", 6, f_lshd }, { "rshd", 6, f_rshd }, { "2expt", 5, f_2expt }, { "cmp", 8, f_cmp },
-    { "cmp_mag", 6, f_cmp_mag }, { "cmp_d", 6, f_cmp_d }, { "montgomery", 22, op_mont }, { "bin", 10, op_bin }, { "read_asn", 6, op_asn },
+    { "add", 24, f_add }, { "sub", 24, f_sub }, { "sub_s", 16, f_sub_s }, { "add_d", 5, f_add_d }, { "sub_d", 5, f_sub_d },
+    { "mul_comba", 28, f_mul }, { "sqr_comba", 12, f_sqr }, { "mul_d", 6, f_mul_d }, { "mul_2", 5, f_mul_2 }, { "div_2", 5, f_div_2 },
+    { "div_2d", 8, op_div_2d }, { "div", 22, op_div }, { "mod", 22, op_mod }, { "mulmod", 24, op_mulmod }, { "invmod", 18, op_invmod },
+    { "exptmod", 3, op_exptmod }, { "lshd", 5, f_lshd }, { "rshd", 5, f_rshd }, { "2expt", 4, f_2expt }, { "cmp", 20, f_cmp },
+    { "cmp_mag", 20, f_cmp_mag }, { "cmp_d", 6, f_cmp_d }, { "montgomery", 30, op_mont }, { "bin", 8, op_bin }, { "read_asn", 6, op_asn },
     { "read_radix", 6, op_radix }, { "copy", 8, op_copy },
 };
+// When a case fails, a few fixed probes of the primitives everything else is built on decide whether the failure is a
+// manifestation of a broken primitive; if so the signature names that root cause instead of the operation it surfaced in.
+static const char *broken_primitive() {
+    { // borrow chain across two digits beyond the subtrahend: 2^128 - 1
+        Mag a(3, 0), b(1, 1); a[2] = 1;
+        P x, y, z; mk(x, a, 0, 1); mk(y, b, 0, 1); Mag e; mk(z, e, 0, 2);
+        if (pstm_sub_s(&x.v, &y.v, &z.v) != PSTM_OKAY || z.v.used != 2 || z.v.dp[0] != ~0ULL || z.v.dp[1] != ~0ULL) return "sub_s-borrow-chain";
+    }
+    { // carry chain across two digits beyond the shorter addend: (2^128 - 1) + 1
+        Mag a(2, ~0ULL), b(1, 1);
+        P x, y, z; mk(x, a, 0, 1); mk(y, b, 0, 1); Mag e; mk(z, e, 0, 2);
+        if (pstm_add(&x.v, &y.v, &z.v) != PSTM_OKAY || z.v.used != 3 || z.v.dp[0] != 0 || z.v.dp[1] != 0 || z.v.dp[2] != 1) return "add-carry-chain";
+    }
+    return NULL;
+}
+static void prop_inner(Tape &t, Ctx &c);
 static void prop(Tape &t, Ctx &c) {
+    try { prop_inner(t, c); }
+    catch (const Fail &f) {
+        if (f.sig.compare(0, 7, "harness") == 0) throw;
+        if (f.sig == "invmod-unreduced" || f.sig.compare(0, 13, "stale-digits:") == 0) throw; // these have their own root causes
+        const char *prim = broken_primitive();
+        if (prim && f.sig.compare(0, strlen(prim), prim) != 0) throw Fail{ prim, "[surfaced as " + f.sig + "] " + f.detail };
+        throw;
+    }
+}
+static void prop_inner(Tape &t, Ctx &c) {
     unsigned total = 0;
     for (const OpEntry &e : OPS) total += e.weight;
     unsigned r = (unsigned) t.below(total);
